@@ -70,6 +70,23 @@ def _benign(prop, repo, path):
         shutil.rmtree(tmp, ignore_errors=True)
 
 
+def _benign_patch(prop, repo, path, known_inc):
+    """An independent behaviour-preserving refactoring (seeded/benign-indep/*.diff): the check must exit 0;
+    exit 2 is tolerated only for the (variant, property) pairs listed in known_inconclusive.json; exit 1 never."""
+    bid = "indep:" + os.path.basename(path)[:-5]
+    tmp = _scratch(repo)
+    try:
+        r = subprocess.run(["patch", "-p1", "-s", "-f", "-i", path], cwd=tmp, capture_output=True, text=True)
+        if r.returncode != 0:
+            return bid, "stale", []
+        code, lines = _run_check(prop, tmp)
+        if code == 2 and prop in known_inc.get(os.path.basename(path)[:-5], {}):
+            return bid, "known-inconclusive", lines[:1]
+        return bid, ("silent" if code == 0 else ("FLAGGED" if code == 1 else "BROKE-ANALYSIS")), lines[:2]
+    finally:
+        shutil.rmtree(tmp, ignore_errors=True)
+
+
 def _transformed(prop, repo, mode):
     """Whole-package behaviour-preserving transformation (sigstat.transforms): the check must stay silent."""
     from . import transforms
@@ -104,8 +121,11 @@ def run_for_property(prop, repo):
         fb = [ex.submit(_benign, prop, repo, b) for b in benign]
         from . import transforms
         ft = [ex.submit(_transformed, prop, repo, m) for m in transforms.MODES]
+        kpath = os.path.join(SEEDED, "benign-indep", "known_inconclusive.json")
+        known_inc = json.load(open(kpath)).get("variants", {}) if os.path.isfile(kpath) else {}
+        fi_ = [ex.submit(_benign_patch, prop, repo, d, known_inc) for d in sorted(glob.glob(os.path.join(SEEDED, "benign-indep", "*.diff")))]
         res_m = [f.result() for f in fm]
-        res_b = [f.result() for f in fb] + [f.result() for f in ft]
+        res_b = [f.result() for f in fb] + [f.result() for f in ft] + [f.result() for f in fi_]
     for mid, status, det in res_m:
         if status == "MISSED" or status == "inconclusive":
             failed = True
@@ -115,7 +135,7 @@ def run_for_property(prop, repo):
             failed = True
             lines.append(f"SELFTEST-FAIL property={prop} benign variant {bid} must stay silent but check {status}: {det[:1]}")
     fired = sum(1 for _, s, _ in res_m if s == "fired")
-    silent = sum(1 for _, s, _ in res_b if s == "silent")
+    silent = sum(1 for _, s, _ in res_b if s in ("silent", "known-inconclusive"))
     stale = sum(1 for _, s, _ in res_m + res_b if s == "stale")
     lines.append(f"SELFTEST property={prop} mutants fired {fired}/{len(res_m)} benign silent {silent}/{len(res_b)} stale {stale}")
     cov = {
